@@ -16,7 +16,7 @@ from fmon.ref import algebra as A
 PROP = "C02"
 DECIDING = ["algebra-equals-reference", "duplicate-free", "returns-model"]
 
-ATOMS6 = ["a", "b", "c", "f(x)", "f(x, 2)", 'g("s")']
+ATOMS6 = ["a", "b", "c", "f(x)", "f(x, 2)", 'g("s")', "f(h(x))"]
 ATOMS3 = ["a", "b", "f(x, 2)"]
 ATOMS2 = ["a", "b"]
 OPS = ["+", "-", ":", "*", "/"]
@@ -29,7 +29,7 @@ def spec(tier):
         "timeout": 900 if tier == "quick" else 7200,
         "exhaustive": True,
         "rule": (
-            "exhaustive operator trees with + - : * / over atoms {a b c f(x) f(x, 2) g(\"s\")} up to 3 leaves, "
+            "exhaustive operator trees with + - : * / over atoms {a b c f(x) f(x, 2) g(\"s\") f(h(x))} up to 3 leaves, "
             "over {a b f(x, 2)} with 4 leaves (thorough: {a b} with 5 leaves), every tree also under **n "
             "(n in 1..3) at the root and at one inner node; each tree embedded as `T`, `y ~ T`, with the "
             "intercept literals in every documented position (0 + T, T - 1, T + 0, -1 + T, T + 1, 0 + T + 1) "
@@ -60,35 +60,8 @@ def has_node(ast, pred):
 
 
 def classify(v):
-    """Mechanism keys (structural predicates on the input formula)."""
-    case = v.get("case") or {}
-    text = case.get("text")
-    key = v.get("key")
-    if not text:
-        return key
-    try:
-        ast = G.parse(text)
-    except Exception:
-        return key
-    alg = A.Algebra("set")
-
-    def equal_mul(n):
-        if n[0] == "bin" and n[1] == "*":
-            try:
-                l, r = alg.ev(n[2]), alg.ev(n[3])
-                return len(l.terms) >= 2 and set(l.terms) == set(r.terms)
-            except A.Undefined:
-                return False
-        return False
-
-    def power_one(n):
-        return n[0] == "bin" and n[1] == "**" and n[3][0] == "lit" and n[3][1] == 1 and n[3][2] is None
-
-    if has_node(ast, power_one):
-        return "power-one"
-    if has_node(ast, equal_mul):
-        return "mul-equal-models"
-    return key
+    """No known findings for C02: every mechanism found so far has been repaired in /repo."""
+    return v.get("key")
 
 
 # ---------------------------------------------------------------------------------------------
